@@ -11,6 +11,7 @@ REPLAYERS = {
     "once_replay": ("Extract.v", "_extract", ["Model/MuReplay.vo", "Model/SemReplay.vo", "Model/OnceReplay.vo"]),
     "counter_replay": ("Extract_Counter.v", "_extract_counter", ["Model/CounterReplay.vo"]),
     "waitn_replay": ("Extract_WaitN.v", "_extract_waitn", ["Model/WaitNReplay.vo"]),
+    "cv_replay": ("Extract_Cv.v", "_extract_cv", ["Model/CvReplay.vo"]),
     "muwait_replay": ("Extract_MuWait.v", "_extract_muwait", ["Model/MuWaitReplay.vo"]),
 }
 OTHER_MAINS = set()
@@ -81,7 +82,7 @@ def replay_one(replayer, exe, seed, env_extra, tdir):
     if os.path.exists(tr):
         rc, o, e = sh([replayer, tr, os.path.join(GEN, "Sites.json")], timeout=60)
         out["replay_rc"] = rc
-        out["replay"] = o.strip()[:600]
+        out["replay"] = o.strip()[:1500]
         os.remove(tr)
     else:
         out["replay_rc"] = -1
@@ -102,7 +103,7 @@ def replay_summary(results):
     sites = {}
     mism = []
     for r in results:
-        m = re.match(r"OK steps=(\d+) skipped=(\d+) snapshots=(\d+) sites=(.*)", r.get("replay", ""))
+        m = re.match(r"OK steps=(\d+) skipped=(\d+) snapshots=(\d+)(?: \w+=\d+)* sites=(\S*)", r.get("replay", ""))
         if m:
             steps += int(m.group(1))
             for kv in m.group(4).split(","):
